@@ -241,6 +241,27 @@ Fixpoint mon_c06_retx (sent : list (N * N)) (ws : list wev) : bool :=
   | _ :: rest => mon_c06_retx sent rest
   end.
 
+(* an identifier stays reserved as long as its operation is incomplete: [pubs] = packet id -> operation for
+   QoS>0 publishes completely transmitted in the current session and not completed; after every call the
+   reservation table still gives that identifier to that operation (subscribes / unsubscribes restart
+   with a fresh identifier after a reconnect, so only publishes are judged) *)
+Fixpoint mon_c06_reserved (pubs : list (N * N)) (ws : list wev) : bool :=
+  match ws with
+  | [] => true
+  | WSent _ (Publish pb) (Some id) :: rest =>
+      if pub_qos pb =? 0 then mon_c06_reserved pubs rest
+      else mon_c06_reserved (insert (pub_pid pb) id (filter (fun '(_, o) => negb (o =? id)) pubs)) rest
+  | WDone _ id _ :: rest => mon_c06_reserved (filter (fun '(_, o) => negb (o =? id)) pubs) rest
+  | WRecv _ (Connack c) :: rest =>
+      if (ca_rc c =? 0) && negb (ca_session_present c) then mon_c06_reserved [] rest else mon_c06_reserved pubs rest
+  | WReset _ :: rest => mon_c06_reserved [] rest
+  | WCall _ _ r sn :: rest =>
+      (if is_panicb r then true else
+       forallb (fun '(pid, id) => if mem id (sn_ops sn) then match lookup pid (sn_alloc sn) with Some o => o =? id | None => false end else true) pubs)
+      && mon_c06_reserved pubs rest
+  | _ :: rest => mon_c06_reserved pubs rest
+  end.
+
 (* ------------------------------------------------------------------ C07: handshake discipline *)
 (* phase: 0 = nothing sent yet on this connection, 1 = CONNECT sent, 2 = successful CONNACK
    processed, 3 = DISCONNECT sent, 4 = not connected *)
@@ -871,6 +892,7 @@ Definition all_monitors (cfg : config) (ws : list wev) : list (N * bool) :=
     (502, mon_c05_deliver [] [] [] ws);
     (601, mon_c06 [] ws);
     (602, mon_c06_retx [] ws);
+    (603, mon_c06_reserved [] ws);
     (701, mon_c07 4 ws);
     (702, mon_c07_connected false ws);
     (703, mon_c07_faithful v5 (cf_connect cfg) false ws);
